@@ -331,6 +331,8 @@ def first_failure(flat):
 
 def classify(flat, modified):
     """Mechanism of an error answer that left the flow changed -- from the document and the flow's history only."""
+    if any(c and c.startswith("exotic-") for (_, _, c) in flat):
+        return None  # exotic values can fail in ways none of the named mechanisms describes
     idx, cls = first_failure(flat)
     if cls is None:
         if any(c == "lenient-null-header-value" for (_, _, c) in flat):
@@ -366,7 +368,10 @@ async def amain(ctx):
                 before_snap = ref.snapshot(f)
                 body_text = dumps(doc)
                 body = body_text.encode("ascii")
-                doc = json.loads(body_text)  # the document as any stdlib JSON reader sees it (Infinity/NaN floats, big ints)
+                try:
+                    doc = json.loads(body_text)  # the document as any stdlib JSON reader sees it (Infinity/NaN floats, big ints)
+                except ValueError:
+                    doc = None  # e.g. an integer literal beyond the interpreter's digit limit: only atomicity is judged
                 try:
                     resp = await rig.request("PUT", f"/flows/{f.id}", headers, body)
                 except (asyncio.TimeoutError, ValueError, ConnectionError) as e:
